@@ -20,7 +20,7 @@ BOUNDS = {
 }
 RULE = (
     "intersection: full product of the two list spaces; union: every multiset x listed splits x orders; "
-    "non-trivial = pairs in which some event spans >=2 events of the other list, or an endpoint of one list coincides with an endpoint of the other, or a zero-length event is present"
+    "non-trivial (intersection) = pairs in which some event overlaps >=2 events of the other list, or a zero-length event lies strictly inside an event of the other list; (union) = multisets of >=2 events"
 )
 ASSUMPTIONS = [
     "internally non-overlapping = no two events of one list share positive-length time (zero-length events may lie anywhere, also inside another event, also duplicated)",
@@ -120,12 +120,10 @@ def check_union(emb, a, b, order):
 
 
 def _nt_pair(a, b):
-    ends_a = {x for s, d in a for x in (s, s + d)}
-    ends_b = {x for s, d in b for x in (s, s + d)}
-    if ends_a & ends_b:
-        return True
-    if any(d == 0 for _, d in a + b):
-        return True
+    for x, y in ((a, b), (b, a)):
+        for s, d in x:
+            if d == 0 and any(t < s < t + f for t, f in y):
+                return True  # zero-length event strictly inside an event of the other list
     for x, y in ((a, b), (b, a)):
         for s, d in x:
             if sum(1 for t, f in y if min(s + d, t + f) - max(s, t) > 0) >= 2:
